@@ -319,6 +319,10 @@ DEFOP(pop) {
             static const char *base[] = {"429496729", "1844674407370955161", "214748364"};
             std::string huge = std::string(base[(tweak / 29) % 3]) + std::to_string(6 + atoi(last.c_str()) % 4);
             if ((tweak / 29) % 3 == 0) huge = std::to_string(4294967296ull + (unsigned long long)atoi(last.c_str()));
+            if ((tweak / 29 / 3) % 3 == 0) {  // the exact ends of the unsigned and signed ranges an index could be decoded into
+                static const char *edge[] = {"18446744073709551615", "18446744073709551614", "4294967295", "2147483647", "2147483648", "9223372036854775807", "9223372036854775808", "65535", "65536"};
+                huge = edge[(tweak / 29 / 9) % 9];
+            }
             path = path.substr(0, slash + 1) + huge;
             for (MVal *k : op->kids) if (k->key == "path") k->str = path;
             w.stats.probes["patch_huge_index"]++;
@@ -882,7 +886,8 @@ DEFOP(dupcheck) {
     if (slot < 0) { w.noop(st, "no free slot"); return; }
     MVal *x = w.pick(st.A(0), st.A(1), [&](MVal *) { return true; });
     if (!x) { w.noop(st, "no node"); return; }
-    cJSON *r = cJSON_Duplicate(x->c, 1);
+    static const int truthy[] = {1, 1, 1, 2, -1, 4, 255, 1024};   // cJSON_bool is an int: every non-zero value means "recursive"
+    cJSON *r = cJSON_Duplicate(x->c, truthy[((uint64_t)st.A(2)) % 8]);
     if (!r) { w.mismatch("dup-result", "recursive Duplicate returned NULL for " + mv_dump(x, 80)); return; }
     MVal *m = mv_clone_value(x);
     {   // key facts
